@@ -23,13 +23,14 @@ Keys are lower-case hex, the empty key is `-`; a pair is `<hexkey>:<value>`.
   pinit <pair> ...            (a pooled trie object that holds another dictionary)
   pload full|t<m>|f<pos>:<byte>   (UnmarshalBinary INTO that object: the image, a truncation, a byte flip)
   blikepat <pattern>          (like dispatch of indexKVStore.FindValuesByLike)
-  bget <key> | bvalues | bpairs | bsuggest <key> <limit> | blike <prefix> <pre|suf|has> <sub> | bmerge <blockSize>
+  bsplit <blockSize> <n> | bcollect <value>* | bframes | bumal <hex> | bget <key> | bvalues | bpairs | bsuggest <key> <limit> | blike <prefix> <pre|suf|has> <sub> | bmerge <blockSize>
 -/
 import LinVerif.Util.Proto
 import LinVerif.Model.Louds
 import LinVerif.Model.LoudsIter
 import LinVerif.Model.TrieBucket
 import LinVerif.Model.TrieWire
+import LinVerif.Model.BucketWire
 import LinVerif.Model.TrieReuse
 import LinVerif.Model.C20Words
 import LinVerif.Generated.C20
@@ -378,9 +379,20 @@ def step (st : St) (ws : List String) : St × String :=
       if blockSize = 0 then (st, "bad-op") else
       -- `rest` starts with "|": the first group is empty
       let groups := groups.filter (fun g => !g.isEmpty)
-      match buildAll (groups.flatMap (fun g => writeBlocks blockSize g)) with
+      -- every flush goes through `TrieBucketBuilder.Write`'s own arithmetic (`writeBlocksGo`: block count,
+      -- slice bounds; = `writeBlocks` by `builder_blocks_partition`)
+      match (groups.mapM (fun g => writeBlocksGo blockSize g)).bind (fun bl => buildAll bl.flatten) with
       | some ts => ({ st with bucket := some ts, blockSize := blockSize }, s!"ok tries={ts.length}")
       | none => ({ st with bucket := none }, "panic")
+    | _, _ => (st, "bad-op")
+  | ["bsplit", bsz, n] =>
+    -- sizes of the blocks `TrieBucketBuilder(blockSize).Write` cuts n (sorted) keys into, in written order
+    match bsz.toNat?, n.toNat? with
+    | some blockSize, some n =>
+      if blockSize = 0 then (st, "panic") else
+      match blocksLoop blockSize (List.replicate n ([], 0)) (numBlocksGo n blockSize) 0 with
+      | some bl => (st, showNats (bl.map List.length))
+      | none => (st, "panic")
     | _, _ => (st, "bad-op")
   | ["bget", k] =>
     match parseKey k with
@@ -410,6 +422,34 @@ def step (st : St) (ws : List String) : St × String :=
     match parseKey pat with
     | none => (st, "bad-op")
     | some like => withBucket st (fun ts => showNats (sortNats (bucketLike eon stepLB ts like)))
+  | "bcollect" :: vs =>
+    -- `TrieBucket.CollectKVs(values, result)` with the wanted values `vs` (a set) and an empty result map
+    match vs.mapM (fun x => x.toNat?) with
+    | none => (st, "bad-op")
+    | some vals =>
+      withBucket st (fun ts =>
+        showPairs (sortPairsByKey ((collectTries stepLB ts vals.eraseDups []).map (fun vk => (vk.2, vk.1)))))
+  | ["bframes"] =>
+    -- the framed value(s) of the current bucket: per trie `[u32 MarshalSize][image]`; the model frames its own
+    -- tries, runs `TrieBucket.Unmarshal`'s loop over the result and answers count + frame digests (sorted)
+    withBucket st (fun ts =>
+      let ws := ts.map (fun t => TrieWire.toWire (encode t))
+      match BucketWire.bucketUnmarshal [] (BucketWire.bucketBytes ws) with
+      | .ok es =>
+        if es == ws.map (fun w => (⟨w, BucketWire.frame w⟩ : BucketWire.Entry)) then
+          s!"ok n={ws.length} d={showNats (sortNats (ws.map (fun w => TrieWire.digest (BucketWire.frame w))))}"
+        else "reload-mismatch"
+      | .err _ => "rejected"
+      | .panic => "rejected")
+  | ["bumal", hex] =>
+    -- `TrieBucket.Unmarshal` on arbitrary (damaged) bytes, fresh object
+    match parseKey hex with
+    | none => (st, "bad-op")
+    | some bytes =>
+      match BucketWire.bucketUnmarshal [] bytes with
+      | .ok es => (st, s!"ok n={es.length} d={showNats (es.map (fun e => TrieWire.digest e.buf))}")
+      | .err _ => (st, "rejected")
+      | .panic => (st, "rejected")
   | ["bmerge", bsz] =>
     match bsz.toNat?, st.bucket with
     | none, _ => (st, "bad-op")
